@@ -161,8 +161,9 @@ pub fn judge(c: &Case, st: &mut Stats) -> Verdict {
                         format!("{:?}, writer holds {} bytes, appended {}", r, out.len(), crate::engine::hex(&out[prefill.len().min(out.len())..][..out.len().saturating_sub(prefill.len()).min(24)])),
                     );
                 }
-            } else if matches!(c.val, Val::Bytes { .. }) && prefill.len() < LIMIT {
-                // a byte slice is one piece: a writer that is still below its limit takes all of it, even across the limit
+            } else if matches!(c.val, Val::Bytes { .. } | Val::Int { .. }) && prefill.len() < LIMIT {
+                // a byte slice is one piece, and so is an integer: a writer that is still below its limit takes all of it, even
+                // across the limit
                 if r != Ok(e.len()) || out != want {
                     return fail(
                         "append-across-limit",
@@ -403,6 +404,41 @@ pub fn judge_seq(c: &SeqCase, st: &mut Stats) -> Verdict {
 pub fn gen_seq(t: &mut Tape) -> SeqCase {
     let n = t.usize_in(2, 5);
     let mut vals = Vec::new();
+    if t.chance(1, 8) {
+        // address blocks of one flow and its neighbours, back to back: the same block, then blocks that differ from it in the
+        // destination address only / the source address only / one port only (an encoder that remembers the last block must
+        // compare all of it)
+        use crate::oracle::v2::RefAddr2;
+        let base = bld::gen_addr(t);
+        vals.push(Val::Addr(base.clone()));
+        for _ in 0..t.usize_in(1, 3) {
+            let mut v = base.clone();
+            match &mut v {
+                RefAddr2::V4 { src, dst, sport, dport } => match t.below(4) {
+                    0 => dst[3] = dst[3].wrapping_add(1 + t.below(200) as u8),
+                    1 => src[0] = src[0].wrapping_add(1 + t.below(200) as u8),
+                    2 => *dport = dport.wrapping_add(1),
+                    _ => *sport = sport.wrapping_add(1),
+                },
+                RefAddr2::V6 { src, dst, sport, dport } => match t.below(4) {
+                    0 => *dst ^= 1u128 << t.below(128),
+                    1 => *src ^= 1u128 << t.below(128),
+                    2 => *dport = dport.wrapping_add(1),
+                    _ => *sport = sport.wrapping_add(1),
+                },
+                RefAddr2::Unix { src, dst } => {
+                    if t.coin() {
+                        dst[107] = dst[107].wrapping_add(1);
+                    } else {
+                        src[t.below(108) as usize] ^= 0x20;
+                    }
+                }
+                RefAddr2::Unspec => {}
+            }
+            vals.push(Val::Addr(v));
+        }
+        return SeqCase { vals, prefill_len: if t.coin() { 0 } else { t.usize_in(0, 40) }, prefill_seed: crate::engine::gen_seed(t) };
+    }
     if t.chance(1, 6) {
         // the shape real headers have: an SSL container TLV (exactly its 5 fixed bytes, or with sub-TLVs inside), followed by
         // TLVs of the SSL sub-types, possibly with an ALPN / authority TLV in front
@@ -449,7 +485,7 @@ pub fn gen_seq(t: &mut Tape) -> SeqCase {
 pub fn gen_case(t: &mut Tape) -> Case {
     let val = bld::gen_val(t, 40);
     let size = bld::ref_size(&val);
-    let (prefill_len, prefill_seed) = match t.weighted(&[3, 4, 3, 1]) {
+    let (prefill_len, prefill_seed) = match t.weighted(&[3, 4, 3, 1, 1]) {
         0 => (0, 0),
         1 => (t.usize_in(0, 64), crate::engine::gen_seed(t)),
         2 => {
@@ -458,7 +494,9 @@ pub fn gen_case(t: &mut Tape) -> Case {
             let target = LIMIT as i64 - delta - size as i64;
             (target.clamp(0, LIMIT as i64 + 4) as usize, t.u32())
         }
-        _ => (t.usize_in(65_000, 65_560), t.u32()),
+        3 => (t.usize_in(65_000, 65_560), t.u32()),
+        // a writer a few bytes below its limit, whatever the size of the value
+        _ => (LIMIT - t.usize_in(0, 24), t.u32()),
     };
     // one case in five: the writer holds the fixed part of a v2 header (any control bytes, mostly valid ones),
     // alone or followed by filler - the state in which the builder hands its buffer to `write_to`
